@@ -256,7 +256,11 @@ def run_property(modname, tier, seed, workers=None, only_shards=None):
         ctx = multiprocessing.get_context("fork")
         with ctx.Pool(workers, initializer=_init_worker, initargs=(modname, tier),
                       maxtasksperchild=getattr(mod, "MAXTASKS", None)) as pool:
+            done = 0
             for st, r in pool.imap_unordered(_run_one, shards, chunksize=1):
+                done += 1
+                if os.environ.get("UTMC_PROGRESS"):
+                    sys.stderr.write(f"[{time.time() - t0:7.1f}s] {done}/{len(shards)} shards\n")
                 if st == "ok":
                     total.merge(r)
                 else:
